@@ -951,14 +951,15 @@ PROPS = {
     "C13": {
         "property_modules": ["Zlink.Properties.C13"], "lean_modules": ["Zlink.Properties.C13"],
         "theorems": ["C13.C13_total", "C13.C13_type_names_exact", "C13.C13_field_names_exact", "C13.C13_interface_names_complete",
-                     "C13.C13_types_complete", "C13.C13_complete"],
+                     "C13.C13_types_complete", "C13.C13_complete", "C13.C13_types_layout", "C13.C13_layout"],
         "run": run_idl, "trusted_base": TB_COMMON,
         "assumptions": [
             "winnow's alt / separated / literal / take_while / multispace0 and str::trim behave as ported in Zlink/Model/Idl.lean (validated by the correspondence run: identical trees / rejections on every explored text)",
             "proved (unbounded): totality; exactness (soundness + longest-match completeness) of the type-name and field-name lexers; completeness of the interface-name lexer; C13_complete: every well-formed description "
             "(any nesting of ?, [], [string], inline structs and enums, any number of members / fields / variants, comments in every slot the description has) is recovered exactly, members in order, from its canonical text",
-            "PARTIAL: not proved, decided per explored text by the Lean oracle on the implementation's observation and by model = implementation: (a) inter-token layout other than the canonical one (random legal whitespace and comment placement is generated by the scenario), "
-            "(b) the soundness direction beyond the lexers - any accepted text is grammatical and nothing of it is ignored (oracle `nothingIgnored`), (c) soundness of the interface-name lexer",
+            "C13_layout (unbounded): the grammar as an inductive relation IfaceCoreL between descriptions and texts - gaps of space/tab/CR/LF wherever the scenario's layout generator puts them (inside parentheses, around `:` `,` `->`, after keywords, between members, around the text), "
+            "comment lines with arbitrary blanks in every slot, members of the three kinds in any interleaving - and the theorem that every such text parses to exactly the description; not covered by the relation: layout comments in places where the description has no slot, form feed / Unicode white space",
+            "PARTIAL: not proved, decided per explored text by the Lean oracle on the implementation's observation and by model = implementation: the soundness direction beyond the lexers - any accepted text is grammatical and nothing of it is ignored (oracle `nothingIgnored`) - and soundness of the interface-name lexer",
             "C13_complete carries the side condition noVCI (no inline enum with commented variants): such trees exist only through the constructors, the parser has no slot for these comments; without the condition the statement is false (C13_complete_statement, kept visible)",
             "leniencies deliberately not counted as violations: members without a line break between them; comments at places where the description has no slot (layout, as in the grammar's `_` production)",
         ],
